@@ -1,9 +1,12 @@
 package main
 
 import (
+	"fmt"
 	"go/ast"
+	"go/constant"
 	"go/token"
 	"go/types"
+	"strconv"
 	"strings"
 
 	"golang.org/x/tools/go/cfg"
@@ -750,6 +753,19 @@ func runC20(c *Ctx) {
 						closes = true // c == quote
 					}
 				}
+			case *ast.SwitchStmt:
+				// switch c { case quote: … }: the same comparison as a tagged switch
+				if y.Tag != nil {
+					tid, tok := ast.Unparen(y.Tag).(*ast.Ident)
+					for _, st := range y.Body.List {
+						for _, e := range st.(*ast.CaseClause).List {
+							cid, cok := ast.Unparen(e).(*ast.Ident)
+							if tok && cok && f.constOf(e) == nil && f.constOf(y.Tag) == nil && (f.ObjOf(cid) == quoteVar || f.ObjOf(tid) == quoteVar) {
+								closes = true
+							}
+						}
+					}
+				}
 			}
 			return true
 		})
@@ -760,6 +776,16 @@ func runC20(c *Ctx) {
 	ast.Inspect(f.Decl.Body, func(x ast.Node) bool {
 		if bl, ok := x.(*ast.BasicLit); ok && bl.Kind == token.CHAR {
 			chars = append(chars, bl.Value)
+		}
+		// a character behind a named constant (`stmtTerminator = ';'`)
+		if id, ok := x.(*ast.Ident); ok {
+			if _, isConst := f.ObjOf(id).(*types.Const); isConst {
+				if cv := f.constOf(id); cv != nil && cv.Kind() == constant.Int {
+					if v, exact := constant.Int64Val(cv); exact && v > 0 && v < 0x110000 {
+						chars = append(chars, strconv.QuoteRune(rune(v)))
+					}
+				}
+			}
 		}
 		return true
 	})
@@ -1035,7 +1061,7 @@ func runC20(c *Ctx) {
 				case !usesRest || !callBefore:
 					c.Fail("C20.2", key, enter.Pos(), "whether Enter submits the line is not decided from the split's rest position: a line break right after a ';' inside a still-open literal submits the buffer and the unterminated tail is discarded")
 				case !appended:
-					c.Fail("C20.2", key, enter.Pos(), "the statements handed on are not the split's result")
+					c202Fail(c, hk, key, enter.Pos(), "the statements handed on are not the split's result")
 				default:
 					c.OK("C20.2", key, enter.Pos(), 3, "submit iff only blanks follow the split's rest; the split's statements are handed on")
 				}
@@ -1125,7 +1151,11 @@ func runC20(c *Ctx) {
 					}
 					return true
 				})
-				c.Check(cleared, "C20.2", hk.Name+"|clear-only-on-submit", enter.Pos(), "the buffer is cleared only when it is submitted", "the line buffer is cleared on a path that does not submit it")
+				if cleared {
+					c.OK("C20.2", hk.Name+"|clear-only-on-submit", enter.Pos(), 1, "the buffer is cleared only when it is submitted")
+				} else {
+					c202Fail(c, hk, hk.Name+"|clear-only-on-submit", enter.Pos(), "the line buffer is cleared on a path that does not submit it")
+				}
 			}
 		}
 	}
@@ -1264,7 +1294,6 @@ func isReadLineResult(f *Func, e ast.Expr) bool {
 	return false
 }
 
-
 // wholeInput: the byte slice is everything a source had to give (os.ReadFile, io.ReadAll): no character can be cut by
 // the end of a read, which is what the key reader's FullRune test is for.
 func wholeInput(f *Func, e ast.Expr) bool {
@@ -1295,4 +1324,14 @@ func wholeInput(f *Func, e ast.Expr) bool {
 		}
 	}
 	return true
+}
+
+// c202Fail: a failure of the submit rules in an Enter arm that now runs through helpers the rules have never seen
+// (written out at their call sites before analysis) is not decided by shape.
+func c202Fail(c *Ctx, hk *Func, key string, pos token.Pos, format string, args ...any) {
+	if hs := writtenOutHelpers(hk); len(hs) > 0 {
+		c.Undecided("C20.2", key, "the Enter arm was restructured around helpers the rules have never seen (%s); the rule would otherwise report: %s", strings.Join(hs, ", "), fmt.Sprintf(format, args...))
+		return
+	}
+	c.Fail("C20.2", key, pos, format, args...)
 }
